@@ -82,6 +82,9 @@ func genCase(user bool) func(t *rapid.T) Case {
 			anyCfg = cfg
 		}
 		c.Desc = tv.GenDesc(t, cfg)
+		if cfg.Formats && rapid.IntRange(0, 3).Draw(t, "formatopt") != 0 {
+			c.Opts = append(c.Opts, opt.B("ExperimentalSupportFormatTag", true))
+		}
 		vc := tv.ValCfg{BadUTF8: true, NonFinite: true, AnyDescs: anyCfg, RawInvalid: true, PoolGen: poolGen, TimeWide: true, Zones: true}
 		if user {
 			vc.AnyKeyPool = poolKeys
@@ -543,4 +546,36 @@ func genWide(t *rapid.T) Case {
 
 func opVal(k int, s []byte, n int64) tv.Val {
 	return tv.Val{Elems: []tv.Val{{I: int64(k)}, {S: s, Nil: s == nil}, {I: n}}}
+}
+
+// genTimes builds values dominated by time.Time / time.Duration fields under
+// every documented format, with fixed zones whose names are arbitrary text.
+func genTimes(t *rapid.T) Case {
+	c := Case{EncOpts: genOpts(t, "enc"), Opts: genOpts(t, "call"), Entry: rapid.IntRange(0, 4).Draw(t, "entry")}
+	c.Opts = append(c.Opts, opt.B("ExperimentalSupportFormatTag", true))
+	d := &tv.Desc{K: "struct", ID: 1}
+	n := rapid.IntRange(1, 4).Draw(t, "nfields")
+	for i := 0; i < n; i++ {
+		kind := rapid.SampledFrom([]string{"time", "time", "time", "dur"}).Draw(t, "kind")
+		ft := &tv.Desc{K: kind}
+		switch rapid.IntRange(0, 5).Draw(t, "wrap") {
+		case 0:
+			ft = &tv.Desc{K: "ptr", Elem: ft}
+		case 1:
+			ft = &tv.Desc{K: "slice", Elem: ft}
+		case 2:
+			ft = &tv.Desc{K: "map", Key: &tv.Desc{K: "string"}, Elem: ft}
+		}
+		tag := ""
+		if kind == "dur" || rapid.IntRange(0, 5).Draw(t, "fmt?") != 0 {
+			tag = ",format:" + rapid.SampledFrom(tv.FormatsFor(kind)).Draw(t, "format")
+		}
+		if rapid.IntRange(0, 4).Draw(t, "omit") == 0 {
+			tag = ",omitzero" + tag
+		}
+		d.Fields = append(d.Fields, tv.Field{Name: fmt.Sprintf("F%d", i), Tag: tag, HasTag: tag != "", T: ft})
+	}
+	c.Desc = d
+	c.Val = tv.GenVal(t, d, tv.ValCfg{Zones: true, TimeWide: true})
+	return c
 }
